@@ -1,13 +1,14 @@
 """writes MANIFEST.json from the table below (kept as code so it stays consistent)"""
 import json, os
 HERE = os.path.dirname(os.path.dirname(os.path.abspath(__file__)))
-CLAIMED = {
- "C09": dict(level="proof",
-   text="Kernel-checked Lean theorems about definitions regenerated from contingency_impl.py on every run: each of the 19 metrics equals its documented expression as a total IEEE-like function of the counts (all values incl. zero cells/NaN/inf), 16 alias equalities, fp<->fn swap laws for all count values, closed 2x2 forms and zero-cell classification; tied to the code by the translator plus an exhaustive correspondence over all tables up to a total and random larger ones.",
-   note="Trusted: Lean kernel; propext/Classical.choice/Quot.sound; py2lean translator; SV.Fl (IEEE minus rounding, overflow, signed zero); libm log for SEDI is uninterpreted; harness tolerance 1e-9 on dyadic/integer inputs; non-finite results of composite metrics whose intermediate quotient is not exactly representable are skipped (rounding-decided).",
-   technique="Lean 4 theorems over translator-regenerated definitions + exhaustive differential correspondence",
-   design="6/C09"),
-}
+import importlib, sys
+sys.path.insert(0, os.path.join(HERE, "tools"))
+CLAIMED = {}
+for fn in sorted(os.listdir(os.path.join(HERE, "tools", "sv", "props"))):
+    if fn.startswith("c") and fn.endswith(".py"):
+        m = importlib.import_module("sv.props." + fn[:-3])
+        if getattr(m, "MANIFEST", None):
+            CLAIMED[m.PROPERTY] = m.MANIFEST
 REASON_PENDING = "check not built yet in this session; the property is within reach of the technique (see DESIGN.md section 6) and will be claimed when its model, theorems and correspondence exist"
 def main():
     props = [json.loads(l)["id"] for l in open(os.path.join(HERE, "properties.jsonl"))]
@@ -28,7 +29,7 @@ def main():
         })
     m = {
         "version": 1,
-        "setup_cmd": "/venv/bin/python tools/translate.py all >/dev/null && cd lean && lake build",
+        "setup_cmd": "/venv/bin/python tools/translate.py all >/dev/null && /venv/bin/python tools/mkroot.py && cd lean && lake build",
         "hooks": {"guard": "NCI_SCORES_VERIF", "enable": "no hooks are needed: every observation point is a return value or exception of a public or module-level function",
                   "baseline_off_cmd": "cd /repo && /venv/bin/python -m pytest -ra -q -p no:cacheprovider --timeout=900 --continue-on-collection-errors",
                   "source_commits": [], "add_only": True},
